@@ -356,6 +356,153 @@ theorem joint_stepL {cfg : Cfg ρ} (hr : cfg.Repaired) (he : NameEnc enc)
           rw [Bus.step_lookup_frame J.invN h1 n (by simp [Bus.changedNames])]
           exact J.owners n
 
+/-- Whole histories. -/
+theorem joint_run {cfg : Cfg ρ} (hr : cfg.Repaired) (he : NameEnc enc)
+    (hne : ∀ a, enc a ≠ [] ∧ enc a ≠ busName) (fgn : BusRoute.Name) (hf : fgn.head? = some ':')
+    {hs : List Bus.HStep} : ∀ {s : Bus.State} {r : BusRoute.State ρ} {s' : Bus.State} {outs : List Bus.HOut},
+    Joint enc s r → Bus.runL s hs = .ok (s', outs) →
+    Joint enc s' (BusRoute.final cfg r (gen enc fgn s hs)) := by
+  induction hs with
+  | nil =>
+    intro s r s' outs J h
+    simp only [Bus.runL] at h
+    cases h
+    exact J
+  | cons x xs ih =>
+    intro s r s' outs J h
+    simp only [Bus.runL] at h
+    cases h1 : Bus.stepL s x with
+    | error e => simp [h1] at h
+    | ok r1 =>
+      obtain ⟨s1, o1⟩ := r1
+      simp only [h1] at h
+      cases h2 : Bus.runL s1 xs with
+      | error e => simp [h2] at h
+      | ok r2 =>
+        obtain ⟨s2, os2⟩ := r2
+        simp only [h2] at h
+        cases h
+        have J1 := joint_stepL hr he hne fgn hf J h1
+        have := ih J1 h2
+        simp only [gen, h1, BusRoute.final_append]
+        exact this
+
+/-- In a joint state C14's lookup for the string of ANY destination is C13's `routerLookup`
+(well-known names through `owners`, unique names through C14's own client table). -/
+theorem Joint.resolve (J : Joint enc s r) (he : NameEnc enc) (fgn : BusRoute.Name)
+    (hf : fgn.head? = some ':') (hf2 : ∀ k, fgn ≠ uniqueNameOf k) (d : Bus.Dest) :
+    BusRoute.resolve r (destStr enc fgn d) = (Bus.routerLookup s d).map phi := by
+  cases d with
+  | wellKnown n => exact resolve_is_routerLookup he r J.owners n
+  | foreign =>
+    show BusRoute.resolve r fgn = none
+    unfold BusRoute.resolve
+    rw [if_pos hf]
+    cases hd : dget fgn r.clients with
+    | none => rfl
+    | some j =>
+      obtain ⟨hn, _⟩ := (J.invR.clients_iff fgn j).mp hd
+      have hj := BusRoute.nameOf_some_lt r j fgn hn
+      rw [BusRoute.nameOf_of_getElem r j _ (J.conn j hj)] at hn
+      exact absurd (Option.some.inj hn).symm (hf2 (j + 1))
+  | unique k =>
+    show BusRoute.resolve r (uniqueNameOf k) = _
+    unfold BusRoute.resolve
+    rw [if_pos (BusRoute.uniqueNameOf_head k), Bus.routerLookup_unique]
+    by_cases hk : s.connected k = true
+    · rw [if_pos hk]
+      obtain ⟨hp, _, hget, hlive⟩ := J.conn_of hk
+      apply (J.invR.clients_iff (uniqueNameOf k) (phi k)).mpr
+      refine ⟨?_, ?_⟩
+      · rw [BusRoute.nameOf_of_getElem r _ _ hget]
+        show some (uniqueNameOf (phi k + 1)) = _
+        rw [hp]
+      · rw [BusRoute.connected_of_getElem r _ _ hget]; exact hlive
+    · rw [if_neg hk]
+      cases hd : dget (uniqueNameOf k) r.clients with
+      | none => rfl
+      | some j =>
+        obtain ⟨hn, hcn⟩ := (J.invR.clients_iff (uniqueNameOf k) j).mp hd
+        have hj := BusRoute.nameOf_some_lt r j _ hn
+        rw [BusRoute.nameOf_of_getElem r j _ (J.conn j hj)] at hn
+        rw [BusRoute.connected_of_getElem r j _ (J.conn j hj)] at hcn
+        have hjk : j + 1 = k := BusRoute.uniqueNameOf_injective (Option.some.inj hn)
+        have : s.connected k = true := by rw [← hjk]; exact hcn
+        exact absurd this hk
+
+/-- In a joint state the event generated for `send c d` by a connected `c` changes nothing and is
+delivered to (C14's index of) the connection C13's `routerLookup` finds - and to nobody else, and to
+nobody when it finds none. -/
+theorem Joint.send (J : Joint enc s r) {cfg : Cfg ρ} (hr : cfg.Repaired) (he : NameEnc enc)
+    (hne : ∀ a, enc a ≠ [] ∧ enc a ≠ busName) (fgn : BusRoute.Name) (hf : fgn.head? = some ':')
+    (hf2 : ∀ k, fgn ≠ uniqueNameOf k) {c : Bus.Conn} (hc : s.connected c = true) (d : Bus.Dest) :
+    (BusRoute.step cfg r (.msg (phi c) (addressedMsg (destStr enc fgn d)) (.exec []))).1 = r ∧
+    (BusRoute.step cfg r (.msg (phi c) (addressedMsg (destStr enc fgn d)) (.exec []))).2.deliveries =
+      (match Bus.routerLookup s d with
+       | some k => [⟨phi k, .fwd (phi c) (BusRoute.remarshal (addressedMsg (destStr enc fgn d)) (uniqueNameOf c))⟩]
+       | none => []) := by
+  obtain ⟨hp, _, hget, hlive⟩ := J.conn_of hc
+  obtain ⟨hd, hb⟩ := destStr_addressed hne fgn hf d
+  have hname : (connOf s (phi c)).uniqueName = some (uniqueNameOf c) := by
+    show some (uniqueNameOf (phi c + 1)) = _
+    rw [hp]
+  obtain ⟨a, b⟩ := step_send hr r (phi c) _ (uniqueNameOf c) _ hget hlive hname hd hb
+  refine ⟨a, ?_⟩
+  rw [b]
+  unfold BusRoute.busSend
+  rw [J.resolve he fgn hf hf2 d]
+  cases Bus.routerLookup s d <;> rfl
+
+theorem gen_append (fgn : BusRoute.Name) {h1 h2 : List Bus.HStep} : ∀ {s s1 : Bus.State} {o1 : List Bus.HOut},
+    Bus.runL s h1 = .ok (s1, o1) →
+    gen (ρ := ρ) enc fgn s (h1 ++ h2) = gen enc fgn s h1 ++ gen enc fgn s1 h2 := by
+  induction h1 with
+  | nil =>
+    intro s s1 o1 h
+    simp only [Bus.runL] at h
+    cases h
+    rfl
+  | cons x xs ih =>
+    intro s s1 o1 h
+    simp only [Bus.runL] at h
+    cases hx : Bus.stepL s x with
+    | error e => simp [hx] at h
+    | ok p =>
+      obtain ⟨sx, ox⟩ := p
+      simp only [hx] at h
+      cases h2 : Bus.runL sx xs with
+      | error e => simp [h2] at h
+      | ok p2 =>
+        obtain ⟨s2, os2⟩ := p2
+        simp only [h2] at h
+        cases h
+        simp only [List.cons_append, gen, hx, ih h2, List.append_assoc]
+
+/-- In a joint state the owner of a well-known name according to C14 is a live connection. -/
+theorem Joint.owner_live (J : Joint enc s r) (he : NameEnc enc) (hs : Bus.Reachable s) (j : ConnId) (n : Bus.Name)
+    (hj : BusRoute.Owns r j (enc n)) : BusRoute.Live r j := by
+  apply names_owner_live he hs r J.owners _ j n hj
+  intro k hk
+  obtain ⟨_, _, hget, hlive⟩ := J.conn_of hk
+  show BusRoute.connected r (phi k) = true
+  rw [BusRoute.connected_of_getElem r _ _ hget]; exact hlive
+
+/-! ### a concrete instance -/
+
+/-- A colon name the bus never hands out. -/
+def exForeign : BusRoute.Name := [':', 'x']
+
+theorem exForeign_ok : exForeign.head? = some ':' ∧ ∀ k, exForeign ≠ uniqueNameOf k := by
+  refine ⟨rfl, fun k h => ?_⟩
+  simp [exForeign, uniqueNameOf] at h
+
+theorem exEnc_addressed : ∀ a, exEnc a ≠ [] ∧ exEnc a ≠ busName := by
+  intro a
+  refine ⟨by simp [exEnc, List.replicate_succ], fun e => ?_⟩
+  have h1 : (exEnc a).head? = some 'a' := by simp [exEnc, List.replicate_succ]
+  rw [e, busName_head] at h1
+  cases h1
+
 end
 
 end Txdbus.NamesRoute
